@@ -98,11 +98,15 @@ where
         1 => {
             out.flush().unwrap();
             err.flush().unwrap();
+            #[cfg(hyeong_verif)]
+            crate::util::verif::exit("pop_stack_wrap", 0);
             process::exit(0);
         }
         2 => {
             out.flush().unwrap();
             err.flush().unwrap();
+            #[cfg(hyeong_verif)]
+            crate::util::verif::exit("pop_stack_wrap", 1);
             process::exit(1);
         }
         _ => Ok(state.pop_stack(idx)),
@@ -138,6 +142,8 @@ pub fn execute_one<T>(
 where
     T: State,
 {
+    #[cfg(hyeong_verif)]
+    crate::util::verif::tick("execute_one");
     let code = (*state.get_code(cur_loc)).clone();
     let mut cur_stack = state.current_stack();
 
